@@ -23,7 +23,7 @@ FAULTS = {
 }
 PRELUDE = ['let strf = func (x) => "s";', "let intf = func (x) => x + 1;", "let tupf = func (x) => {a = x};",
            "let lstf = func (x) => [x, x];", 'let sv = "x12";', "let iv = 7;", "let tv = {a = 1};", "let lv = [1, 2];"]
-NESTINGS = ["top", "tuple_field", "list_elem", "call_arg", "select_arm", "func_body"]
+NESTINGS = ["top", "tuple_field", "list_elem", "call_arg", "select_arm", "func_body", "template_expr"]
 SYNTAX = [("=", ""), (";", ""), ("(", ""), (")", ""), ("{", ""), ("}", ")"), ("=", "=="), (",", ";")]
 
 
@@ -85,6 +85,9 @@ def fault_statements(kind, nesting, tag):
         return ["let idf%s = func (x) => x;" % tag, "let bad%s = idf%s(%s);" % (tag, tag, F)], 1, None
     if nesting == "select_arm":
         return ["let bad%s = select (\"a\", 0) => {a = %s, b = 2};" % (tag, F)], 0, None
+    if nesting == "template_expr":
+        # the fault sits inside @{...} of a format string (re-tokenized by the template parser)
+        return ["let bad%s = \"pre @{%s} post\" %% tv;" % (tag, F.replace('"', '\\"'))], 0, None
     if nesting == "func_body":
         return ["let g%s = func (x) => [x, %s];" % (tag, F), "let keep%s = 1;" % tag, "let bad%s = g%s(1);" % (tag, tag)], 0, 2
     raise ValueError(nesting)
@@ -229,7 +232,7 @@ def run(tier, seed):
     cov["distinct_nontrivial"] = len(set(c["text"] for c in cases))
     cov["rule"] = ("valid multi-line programs of 3..12 statements with exactly one fault (unknown name, run-time type mismatch, missing field, "
                    "missing index, unhandled select case, failed cast, fail expression) at every statement position (quick: one of first/middle/last per form), every kind in several forms (literal operand, operand bound earlier, operand returned by a function defined earlier) "
-                   "and nesting position (top, tuple field, list element, call argument, select arm, function body called later), each also "
+                   "and nesting position (top, tuple field, list element, call argument, select arm, function body called later, inside @{...} of a format string), each also "
                    "with 1..3 statements inserted before; syntax faults by replacing one token; the span table comes from the generator")
     cov["generator_distribution"] = stats
     cov["samples"] = [cases[0]["text"], cases[-1]["text"]]
